@@ -1,7 +1,7 @@
 #!/bin/bash
 # usage: seed_verify.sh <seed-src-dir> <seed-id> <prop> [more props...]
 # Confirms a seeded change independently in a scratch worktree (demo passes clean / fails patched, pinned suite
-# unchanged), then applies it to /repo, runs the property checks, reverts, and files it under /verif/seeded/<id>/.
+# unchanged), runs the property checks against that patched worktree (PYVC_REPO_SRC), and files it under /verif/seeded/<id>/.
 set -u
 SRC=$1; ID=$2; shift 2; PROPS="$@"
 WT=$(mktemp -d /tmp/seedwt_XXXX); rmdir $WT
@@ -27,20 +27,17 @@ PY
 rm -f $WT/tmp*.spc
 echo "$ID: demo clean exit=$CLEAN patched exit=$PATCHED; baseline tests missing with patch=$SUITE"
 if [ "$CLEAN" != 0 ] || [ "$PATCHED" = 0 ] || [ "$SUITE" != 0 ]; then echo "$ID: REJECTED (does not meet the criteria)"; exit 1; fi
-# run my checks on /repo with the patch applied, then revert
-cd /repo; git diff --quiet || { echo "/repo not clean"; exit 2; }
+# run my checks against the patched scratch worktree (PYVC_REPO_SRC): /repo itself is not touched
 EVSAVE=$(mktemp -d /tmp/evsave_XXXX); cp -r /verif/evidence/. $EVSAVE/ 2>/dev/null
-git apply $SRC/patch.diff
 RES=""
 for P in $PROPS; do
-  OUT=$(/verif/check $P 2>&1); RC=$?
+  OUT=$(PYVC_REPO_SRC=$WT/src /verif/check $P 2>&1); RC=$?
   FIRST=$(echo "$OUT" | grep -m1 "failed obligation\|bounded stand-in" | cut -c1-260)
   NV=$(echo "$OUT" | grep -c "^VIOLATION")
   RES="$RES $P:exit=$RC,violations=$NV"
   echo "  check $P exit=$RC violation_lines=$NV :: $FIRST"
   echo "$OUT" | tail -1
 done
-git checkout -- . ; git -C /repo status --short | grep -v '^??'
 cp -r $EVSAVE/. /verif/evidence/ 2>/dev/null; rm -rf $EVSAVE      # evidence of runs on a mutated tree is never kept
 mkdir -p /verif/seeded/$ID; cp $SRC/patch.diff $SRC/demo.py /verif/seeded/$ID/
 python3 - "$SRC/meta.json" "/verif/seeded/$ID/meta.json" "$RES" "$CLEAN" "$PATCHED" <<'PY'
